@@ -219,7 +219,7 @@ Proof. vm_compute. reflexivity. Qed.
 Definition scope_return_family : bool :=
   forallb (fun p => both (fun m =>
      accept [] [SVar 0; SBlock [SLet 0 m (0, p); SUse 0; SUse 0]; SWrite (0, p)]
-     && negb (accept [] [SVar 0; SIf None [SRetBor m (0, p)] []; SRetRef 100])
+     && negb (accept [] [SVar 0; SIf CNone [SRetBor m (0, p)] []; SRetRef 100])
      && negb (accept [] [SVar 0; SLet 0 m (0, p); SRetRef 0])
      && negb (accept [3] [SRetBor m (3, [])])
      && accept [3] [SVar 0; SCopy 0 100; SRetRef 0])) test_paths.
@@ -231,7 +231,7 @@ Definition bplaces : list place := [(0, [SF 0]); (0, [SF 2]); (0, [SF 2; SF 5]);
 Definition batoms : list stmt :=
   flat_map (fun pl => [SLet 0 true pl; SLet 0 false pl; SLet 1 true pl; SLet 1 false pl; SRead pl; SWrite pl;
                        SCall [ABor true pl; ARd (0, [SF 2; SF 5])]]) bplaces
-  ++ [SUse 0; SUse 1; SWt 1; SCopy 2 0; SUse 2; SCall [ARef 0; ABor false (0, [SF 0])]].
+  ++ [SUse 0; SUse 1; SWt 1; SCopy 2 0; SUse 2; SCall [ARef 0; ABor false (0, [SF 0])]; SIf (CRef 0) [SRead (0, [SF 0])] [SIf (CRef 1) [] []]].
 Fixpoint seqs (n : nat) : list (list stmt) :=
   match n with
   | O => [[]]
@@ -239,7 +239,7 @@ Fixpoint seqs (n : nat) : list (list stmt) :=
   end.
 Definition shapes (ss : list stmt) : list (list stmt) :=
   match ss with
-  | a :: b :: rest => [ss; [a; SBlock (b :: rest)]; [a; b; SWhile None rest]; [a; SIf (Some (0, [SF 0])) [b] rest];
+  | a :: b :: rest => [ss; [a; SBlock (b :: rest)]; [a; b; SWhile CNone rest]; [a; SIf (CPl (0, [SF 0])) [b] rest];
                        a :: SBlock [b] :: rest]
   | _ => [ss]
   end.
